@@ -633,8 +633,11 @@ void cmb_dataset_ACF(const struct cmb_dataset *dsp,
             for (uint64_t ui = 0; ui < ustop; ui++) {
                 dk += (dsp->xa[ui] - m1) * (dsp->xa[ui + ulag] - m1);
             }
-            const double acov = dk / ((double)(ustop));
-            acf[ulag] = acov / var;
+            /* The standard sample autocorrelation: sum of lagged products over
+             * the sum of squares, the only normalization that keeps every
+             * coefficient within [-1, 1] and the sequence positive semidefinite
+             * (which the PACF recursion and the correlogram rely on) */
+            acf[ulag] = dk / m2;
             cmb_assert_debug((acf[ulag] >= -1.0) && (acf[ulag] <= 1.0));
         }
     }
